@@ -683,6 +683,15 @@ def status(pid, tier, replay):
             s["srcs"] = list(s["srcs"]) + ["gs"]
             h = s["hist"][0]
             s["hist"] = [dict(h, printer=""), {"op": "touch", "f": "gs"}, {"op": "touch", "f": s["srcs"][0]}, h]
+        elif real_pipes.n % 3 == 1:
+            # every command that is running completes (all its output written, process gone) before ninja looks again
+            for step in s["hist"]:
+                if step.get("op") == "build" and step.get("j", 1) > 1:
+                    step["burst"] = True
+            # ... and every command has more to say than one read of the pipe takes
+            for st in s["stmts"]:
+                if not st["phony"]:
+                    st["outp"] = ["mark", "nl", "long", "nl", "mark", "nl"]
         return s
     real_pipes.n = 0
     h2 = dict(fams=[dict(fam="status", K=2 if tier == "quick" else 12, CH=2 if tier == "quick" else 6, mut=real_pipes)], limit=80 if tier == "quick" else 1200, maxruns=2)
